@@ -360,8 +360,9 @@ fn cases(tier: Tier) -> Vec<Case> {
                     if [i, j, k].iter().filter(|x| **x == 7).count() > 1 {
                         continue;
                     }
-                    v.push(make_case(&[i, j, k], Extras::None, Mailbox::U, 0, Some(4)));
-                    v.push(make_case(&[i, j, k], Extras::Interval, Mailbox::B(0), 0, Some(3)));
+                    v.push(make_case(&[i, j, k], Extras::None, Mailbox::U, 0, None));
+                    v.push(make_case(&[i, j, k], Extras::Interval, Mailbox::B(0), 0, Some(5)));
+                    v.push(make_case(&[i, j, k], Extras::Subscribed, Mailbox::U, 0, Some(4)));
                 }
             }
         }
